@@ -1,5 +1,5 @@
 (* ListLaws.v — laws of the list built-ins of BuiltinsList.v (property C14). *)
-From Coq Require Import String Ascii List ZArith Bool Lia Permutation Sorted.
+From Coq Require Import String Ascii List ZArith Bool Lia Permutation Sorted Floats.SpecFloat.
 Require Import Blots.Num Blots.gen.Builtins Blots.Ast Blots.Value Blots.Outcome Blots.Access
   Blots.BuiltinsList Blots.proofs.ValueInd Blots.proofs.Order.
 Import ListNotations.
@@ -466,7 +466,7 @@ Section SortBy.
   Proof.
     revert st kl st'. induction l as [|x l IH]; intros st kl st'; cbn.
     - intros H; injection H as <- _. reflexivity.
-    - destruct (call VNull func [x] st) as [k st1]. destruct k; try discriminate.
+    - destruct (call func func [x] st) as [k st1]. destruct k; try discriminate.
       destruct (BuiltinsList.keys_of St call func l st1) as [more st2] eqn:E.
       destruct more; cbn; try discriminate. intros H; injection H as <- _.
       cbn. f_equal. now apply (IH st1 _ st2).
@@ -499,14 +499,14 @@ Section SortBy.
   Variable func : value.
   Variable key : value -> value.
   Hypothesis Hfun : is_function func = true.
-  Hypothesis Hkey : forall x st, fst (call VNull func [x] st) = Ok (key x).
+  Hypothesis Hkey : forall x st, fst (call func func [x] st) = Ok (key x).
   Let key_less := fun a b => value_less (key a) (key b).
 
   Lemma sort_by_cmp_key a b st : fst (sort_by_cmp func a b st) = Ok (cmp_or_eq (key a) (key b)).
   Proof.
     unfold BuiltinsList.sort_by_cmp. rewrite Hfun.
-    assert (Ha := Hkey a st). destruct (call VNull func [a] st) as [ra st1]. cbn in Ha. subst ra.
-    assert (Hb := Hkey b st1). destruct (call VNull func [b] st1) as [rb st2]. cbn in Hb. subst rb.
+    assert (Ha := Hkey a st). destruct (call func func [a] st) as [ra st1]. cbn in Ha. subst ra.
+    assert (Hb := Hkey b st1). destruct (call func func [b] st1) as [rb st2]. cbn in Hb. subst rb.
     reflexivity.
   Qed.
 
@@ -534,7 +534,7 @@ Section SortBy.
   Lemma keys_of_key l st : fst (keys_of func l st) = Ok (map (fun x => (key x, x)) l).
   Proof.
     revert st. induction l as [|x l IH]; intros st; cbn; [reflexivity|].
-    assert (H := Hkey x st). destruct (call VNull func [x] st) as [k st1]. cbn in H. subst k.
+    assert (H := Hkey x st). destruct (call func func [x] st) as [k st1]. cbn in H. subst k.
     assert (H := IH st1). destruct (BuiltinsList.keys_of St call func l st1) as [more st2].
     cbn in H. subst more. reflexivity.
   Qed.
@@ -615,3 +615,71 @@ Section SortBy.
     - intros x Hx. apply E. eapply Permutation_in; [symmetry; exact Pm|exact Hx].
   Qed.
 End SortBy.
+
+(* ====================================================================== chunk / flatten *)
+(* chunk's size argument after the `as usize` cast, as the model clamps it *)
+Definition chunk_size (l : list value) (x : num) : nat :=
+  Z.to_nat (Z.min (as_usize x) (Z.max 1 (Z.of_nat (length l)))).
+
+Lemma chunk_ok l x : (as_usize x =? 0)%Z = false ->
+  bi_chunk [VList l; VNum x] = Ok (VList (map VList (chunks l (chunk_size l x)))).
+Proof. intros H. unfold bi_chunk. cbn [arg nth_error obind as_number as_list]. now rewrite H. Qed.
+
+Lemma chunk_zero l x : (as_usize x =? 0)%Z = true -> bi_chunk [VList l; VNum x] = Err.
+Proof. intros H. unfold bi_chunk. cbn [arg nth_error obind as_number as_list]. now rewrite H. Qed.
+
+Lemma clamp_nonneg hi z : (0 <= hi)%Z -> (0 <= clamp 0 hi z)%Z.
+Proof.
+  intros H. unfold clamp. destruct (z <? 0)%Z eqn:E1; [lia|].
+  destruct (hi <? z)%Z eqn:E2; [lia|]. apply Z.ltb_ge in E1. lia.
+Qed.
+
+Lemma as_usize_nonneg x : (0 <= as_usize x)%Z.
+Proof.
+  assert (HU : (0 <= U64_MAX)%Z) by (unfold U64_MAX; lia).
+  unfold as_usize, cast_int.
+  destruct x as [s|s| |s m e].
+  - destruct (Z_of_num_trunc (S754_zero s)); [now apply clamp_nonneg|lia].
+  - destruct s; [lia|exact HU].
+  - lia.
+  - destruct (Z_of_num_trunc (S754_finite s m e)); [now apply clamp_nonneg|lia].
+Qed.
+
+(* flatten(chunk(l, n)) == l whenever chunk succeeds (n >= 1 after the cast) *)
+Lemma flatten_chunk l x c : bi_chunk [VList l; VNum x] = Ok c -> bi_flatten [c] = Ok (VList l).
+Proof.
+  destruct (as_usize x =? 0)%Z eqn:E.
+  - rewrite chunk_zero by assumption. discriminate.
+  - rewrite chunk_ok by assumption. intros H; injection H as <-.
+    unfold bi_flatten. cbn [arg nth_error obind as_list]. now rewrite flatten_items_lists, chunks_concat.
+Qed.
+
+(* every chunk has exactly n elements except the last, which has between 1 and n; the chunks
+   concatenate to l; n is the requested size (or the list length when the request is larger) *)
+Lemma chunk_lengths l x c : bi_chunk [VList l; VNum x] = Ok c ->
+  exists cs n, c = VList (map VList cs) /\ (1 <= n)%nat /\
+    Z.of_nat n = Z.min (as_usize x) (Z.max 1 (Z.of_nat (length l))) /\
+    chunk_shape n cs /\ List.concat cs = l.
+Proof.
+  destruct (as_usize x =? 0)%Z eqn:E.
+  - rewrite chunk_zero by assumption. discriminate.
+  - rewrite chunk_ok by assumption. intros H; injection H as <-.
+    assert (Hx := as_usize_nonneg x). apply Z.eqb_neq in E.
+    exists (chunks l (chunk_size l x)), (chunk_size l x).
+    assert (1 <= chunk_size l x)%nat by (unfold chunk_size; lia).
+    split; [reflexivity|]. split; [assumption|]. split; [unfold chunk_size; lia|].
+    split; [now apply chunks_shape|apply chunks_concat].
+Qed.
+
+(* a request larger than the list gives the single chunk [l], as slice::chunks does *)
+Lemma chunks_one {A} (l : list A) n : l <> [] -> (length l <= n)%nat -> chunks l n = [l].
+Proof.
+  intros Hne Hn. unfold chunks.
+  assert (G : forall (l cur : list A) room, (length l <= room)%nat -> cur ++ l <> [] ->
+             chunk_acc l n room cur = [cur ++ l]).
+  { clear. induction l as [|x l IH]; intros cur room Hr Hc; cbn.
+    - rewrite app_nil_r in *. destruct cur; [congruence|reflexivity].
+    - destruct room as [|k]; [cbn in Hr; lia|].
+      rewrite IH; [now rewrite <- app_assoc|cbn in Hr; lia|]. destruct cur; discriminate. }
+  now apply (G l [] n).
+Qed.
